@@ -174,16 +174,27 @@ func checkValueContainersUnwritten(r *Run, cg *CallGraph, reach map[*types.Func]
 		// a local that starts as the parameter and is written after a copy was (or was not) made
 		if bad == token.NoPos {
 			ast.Inspect(fd.Body, func(x ast.Node) bool {
-				as, ok := x.(*ast.AssignStmt)
-				if !ok || len(as.Lhs) != len(as.Rhs) || bad != token.NoPos {
+				var lhsList, rhsList []ast.Expr
+				switch t := x.(type) {
+				case *ast.AssignStmt:
+					lhsList, rhsList = t.Lhs, t.Rhs
+				case *ast.ValueSpec:
+					for _, nm := range t.Names {
+						lhsList = append(lhsList, nm)
+					}
+					rhsList = t.Values
+				default:
 					return true
 				}
-				for i, rhs := range as.Rhs {
+				if len(lhsList) != len(rhsList) || bad != token.NoPos {
+					return true
+				}
+				for i, rhs := range rhsList {
 					rid, ok := ast.Unparen(rhs).(*ast.Ident)
 					if !ok || !params[info.Uses[rid]] {
 						continue
 					}
-					lid, ok := ast.Unparen(as.Lhs[i]).(*ast.Ident)
+					lid, ok := ast.Unparen(lhsList[i]).(*ast.Ident)
 					if !ok || lid.Name == "_" {
 						continue
 					}
